@@ -29,8 +29,9 @@ class Src:
     """path -> text / parsed tree.  `overrides` lets the thorough tier analyse
     an in-memory variant of a file without touching the disk."""
 
-    def __init__(self, root=REPO, overrides=None):
+    def __init__(self, root=REPO, overrides=None, canon=False):
         self.root = root
+        self.canon = canon
         self.overrides = dict(overrides or {})
         self._py = {}
         self._hy = {}
@@ -39,7 +40,15 @@ class Src:
     def with_override(self, rel, text):
         o = dict(self.overrides)
         o[rel] = text
-        return Src(self.root, o)
+        return Src(self.root, o, self.canon)
+
+    def variant(self, canon):
+        """The same sources with / without canonicalisation (shares nothing but the overrides)."""
+        if canon == self.canon:
+            return self
+        v = Src(self.root, self.overrides, canon)
+        v.consulted = self.consulted
+        return v
 
     def exists(self, rel):
         return rel in self.overrides or os.path.exists(os.path.join(self.root, rel))
@@ -65,7 +74,11 @@ class Src:
                 tree = ast.parse(self.text(rel), filename=rel)
             except SyntaxError as e:
                 raise AnalysisError(f"cannot parse {rel}: {e}")
-            self._py[rel] = pysrc.Module(rel, tree, self.text(rel))
+            if self.canon:
+                from . import canon
+
+                tree = canon.canonical(tree)
+            self._py[rel] = pysrc.Module(rel, tree, self.text(rel), canon=self.canon)
         return self._py[rel]
 
     def hy(self, rel):
@@ -184,7 +197,7 @@ class Ctx:
 def transfer(ctx, src, mod, rules, key_filter=None, rename=None):
     """Run another property's check in a scratch context and adopt the instances/findings of the given rules."""
     sub = Ctx(ctx.prop, ctx.tier, ctx.seed)
-    mod.check(sub, src)
+    mod.check(sub, src.variant(bool(getattr(mod, "CANON", False))))
     keep = (lambda k: True) if key_filter is None else key_filter
     for i in sub.instances:
         if i["rule"] in rules and keep(i["key"]):
